@@ -8,6 +8,7 @@ import (
 	"github.com/consensys/gnark/frontend"
 	"github.com/consensys/gnark/std/math/bitslice"
 	"github.com/consensys/gnark/std/math/cmp"
+	"github.com/consensys/gnark/std/rangecheck"
 	"github.com/consensys/gnark/std/selector"
 )
 
@@ -38,9 +39,13 @@ type ProgBeh struct {
 	Probes []Probe `json:"probes"`
 }
 
+// plainAPI hides every optional interface of the builder (Committer, Rangechecker): rangecheck.New falls back to the
+// bit-decomposition checker.
+type plainAPI struct{ frontend.API }
+
 func isAssert(op string) bool {
 	switch op {
-	case "AssertIsEqual", "AssertIsDifferent", "AssertIsBoolean", "AssertIsCrumb", "AssertIsLessOrEqual", "PlonkGate":
+	case "AssertIsEqual", "AssertIsDifferent", "AssertIsBoolean", "AssertIsCrumb", "AssertIsLessOrEqual", "PlonkGate", "GRangePlain":
 		return true
 	}
 	return false
@@ -181,6 +186,12 @@ func (c *ProgCircuit) run(api frontend.API) ([]frontend.Variable, error) {
 		case "GPartition":
 			lo, hi := bitslice.Partition(api, a[0], uint(ins.N))
 			temps = append(temps, lo, hi)
+		case "GRangePlain":
+			n := ins.N
+			if n >= 5 { // 5 / 6 / 7 are FieldBits-1 / FieldBits / FieldBits+1 for P = 47
+				n = c.FieldBits + (n - 6)
+			}
+			rangecheck.New(plainAPI{api}).Check(a[0], n)
 		case "AssertIsEqual":
 			api.AssertIsEqual(a[0], a[1])
 		case "AssertIsDifferent":
@@ -428,6 +439,12 @@ func EvalProg(prog []Instr, asg []*big.Int, mod *big.Int) OracleResult {
 			lo := n().And(a[0], n().Sub(n().Lsh(one, uint(ins.N)), one))
 			push(lo)
 			push(n().Rsh(a[0], uint(ins.N)))
+		case "GRangePlain":
+			w := ins.N
+			if w >= 5 {
+				w = bitLen(mod) + (w - 6)
+			}
+			res.Ok = a[0].BitLen() <= w
 		case "AssertIsEqual":
 			res.Ok = a[0].Cmp(a[1]) == 0
 		case "AssertIsDifferent":
